@@ -7,7 +7,8 @@ import gen
 
 RULE = ('cases = (cost dict, disjoint worker groups, world, colocate) on the real static method '
         'KAISAAssignment.greedy_assignment; returned dict compared for equality with the Lean model; '
-        'non-trivial = ≥2 layers and ≥2 workers; distinct = distinct canonical (work,groups,colocate)')
+        'non-trivial = ≥2 layers and ≥2 workers; distinct = distinct canonical (work,groups,colocate)'
+        '; order-independent checks through the public KAISAAssignment class (completeness, confinement to the reported gradient-worker group, co-location)')
 TRUSTED = [
     'Lean 4.33 kernel; axioms audited ⊆ {propext, Classical.choice, Quot.sound}',
     'hand-written model KV.Kaisa.greedy tied to KAISAAssignment.greedy_assignment by this correspondence',
